@@ -12,6 +12,7 @@ NOT_DECIDED = ("correctness of the retain predicate beyond its shape, timing of 
 DECIDED += "; R8 exhaustive scan: for_pairs visits every ordered pair (its loops end only when their iterators are exhausted)"
 DECIDED += '; R8 also: for_pairs calls back for every ordered pair of distinct hosts (no visited-set)'
 DECIDED += '; R2 also: Link::enqueue is the only function that pushes onto Link::sent; R3 also: Link::sent is purged only by a function that partitions a direction'
+DECIDED += '; R8 also: the regex host-set resolver scans the whole name table'
 ASSUMPTIONS = ["hold/release is outside the property's alphabet (Sim documents the combination with one-way partitions as unsupported)"]
 
 CELLS = {"turmoil::top::Link::state_a_b": "turmoil::top::State", "turmoil::top::Link::state_b_a": "turmoil::top::State"}
